@@ -35,6 +35,7 @@ fn drivers() -> Vec<Box<dyn Driver>> {
         Box::new(props::c14::C14),
         Box::new(props::c17::C17),
         Box::new(props::c18::C18),
+        Box::new(props::c15::C15),
         Box::new(props::c19::C19),
     ]
 }
